@@ -52,11 +52,16 @@ def templates(tier="quick"):
     shapes.append(("console_validation", Variant("v0", [Stmt("c1", ex=["s"], pool="console"), Stmt("chk", ex=["c1"]),
                                                         Stmt("use", ex=["c1"], val=["chk"]), Stmt("top", ex=["use"])],
                                                  defaults=["top"])))
+    # a project that binds `builddir`: lock file, both logs and an output live there; the directory itself is created by ninja
+    shapes.append(("builddir_gcc_rsp", Variant("v0", [Stmt("bd/obj", ex=["src"], hidden=["hdr"], deps="gcc"),
+                                                       Stmt("lib", ex=["bd/obj"], rsp=("bd/lib.rsp", "bd/obj")), Stmt("exe", ex=["lib"])],
+                                                header="builddir = bd")))
     for name, v in shapes:
         ops, plain, crash = _ops(v)
+        bd = "bd" if name.startswith("builddir") else ""
         # from a fresh tree: kill the very first build; from a built tree: kill an incremental build
-        T.append(scenario("c07/" + name + "/fresh", "c07", [v], ops=ops, init=[], depth=2, tags=["crash", "fresh"]))
-        T.append(scenario("c07/" + name + "/built", "c07", [v], ops=ops, init=[plain], depth=d, tags=["crash", "built"]))
+        T.append(scenario("c07/" + name + "/fresh", "c07", [v], ops=ops, init=[], depth=2, tags=["crash", "fresh"], builddir=bd))
+        T.append(scenario("c07/" + name + "/built", "c07", [v], ops=ops, init=[plain], depth=d, tags=["crash", "built"], builddir=bd))
     # log recompaction: a build log with > 100 dead entries and a deps log with > 1000 dead records
     v = Variant("v0", [Stmt("obj", ex=["src"], hidden=["hdr"], deps="gcc"), Stmt("exe", ex=["obj"])])
     log = "# ninja log v7\n" + "".join("0\t1\t1700000000000000000\tdead%d\tabcdef%d\n" % (i, i) for i in range(130))
